@@ -1,6 +1,6 @@
 """C09 -- variation arithmetic is exact.
 
-(M)  MC_Tent / MC_Model / MC_IUP / MC_VarStore: the semantic modules (Rat, VarSem, Tent,
+(M)  MC_Rat / MC_Tent / MC_Model / MC_IUP / MC_VarStore: the semantic modules (Rat, VarSem, Tent,
      Model, IUP, VarStoreSem) and the transcriptions of the code's case analyses satisfy
      the contracts on whole lattices; the cases that fired are reported by TLC itself.
 (R)  the same lattices (tents x limits, TLC-generated master sets, small contours and
@@ -601,11 +601,120 @@ def run_store(case):
             return out
         if kind == "font":
             return font_store_traces(payload, rng)
+        if kind == "multi":
+            return multi_store_traces(seed)
     except Unrecoverable as e:
         return [{"k": "inexact", "of": {"k": "store", "case": repr(payload)[:200]}, "what": "store output %s is not a lattice rational" % e}]
     except TooBig:
         return [{"k": "skip", "why": "value beyond 31 bits"}]
     raise MachineryError("unknown store case " + kind)
+
+
+# --------------------------------------------------------------------------------------
+# MultiVarStore (VARC): a store of vector items over sparse regions.  It is marshalled as an
+# item store with one row per vector component (pure restructuring), then judged as above.
+# --------------------------------------------------------------------------------------
+def multi_store_json(store, naxes):
+    regions = []
+    for reg in store.SparseVarRegionList.Region:
+        dense_reg = [[[0, 1], [0, 1], [0, 1]] for _ in range(naxes)]
+        for ax in reg.SparseVarRegionAxis:
+            dense_reg[ax.AxisIndex] = [rat(F(ax.StartCoord)), rat(F(ax.PeakCoord)), rat(F(ax.EndCoord))]
+        regions.append(dense_reg)
+    data, base, width = [], [], []
+    for vd in store.MultiVarData:
+        nreg = len(vd.VarRegionIndex)
+        rows, b, w = [], [], []
+        for values in vd.Item:
+            m = len(values) // nreg if nreg else 0
+            b.append(len(rows))
+            w.append(m)
+            for c in range(m):
+                rows.append([int(values[k * m + c]) for k in range(nreg)])
+        data.append({"ri": [int(i) for i in vd.VarRegionIndex], "items": rows})
+        base.append(b)
+        width.append(w)
+    return {"regions": regions, "data": data}, base, width
+
+
+def multi_store_traces(seed):
+    from fontTools.misc.vector import Vector
+    from fontTools.varLib import models, multiVarStore
+
+    rng = random.Random(seed)
+    naxes = rng.choice([1, 2, 3])
+    tags = TAGS[:naxes]
+    D = 2
+    b = multiVarStore.OnlineMultiVarStoreBuilder(tags)
+    builds = []
+    for _m in range(rng.randint(1, 2)):
+        pts = set()
+        for _ in range(rng.randint(1, 3)):
+            p = tuple(rng.choice([0, 0] + list(range(-D, D + 1))) for _ in range(naxes))
+            if any(p):
+                pts.add(p)
+        if not pts:
+            continue
+        locs = [{}] + [{tags[a]: F(v, D) for a, v in enumerate(p) if v} for p in sorted(pts)]
+        model = models.VariationModel(locs, axisOrder=tags)
+        b.setModel(model)
+        sups = [region_json(s, tags) for s in model.supports[1:]]
+        these = []
+        for _i in range(rng.randint(1, 4)):
+            m = rng.randint(1, 3)
+            if rng.random() < 0.5:
+                vecs = [Vector([rng.choice([0, rng.randint(-300, 300)]) for _ in range(m)]) for _ in sups]
+                vi = b.storeDeltas(vecs)
+            else:
+                vals = [Vector([rng.randint(-300, 300) for _ in range(m)]) for _ in locs]
+                _base, vi = b.storeMasters(vals)
+                vecs = [round(d) for d in model.getDeltas(vals, round=round)][1:]
+            if vi != 0xFFFFFFFF:
+                these.append((vi, [[int(x) for x in v] for v in vecs]))
+        builds.append((sups, these))
+    store = b.finish()
+    if not store.MultiVarData:
+        return []
+    js, base, width = multi_store_json(store, naxes)
+    locs = lattice_locs(rng, naxes, 5, D=4)
+    out = []
+    for sups, these in builds:
+        rows = []
+        for vi, vecs in these:
+            d, i = vi >> 16, vi & 0xFFFF
+            for c in range(width[d][i]):
+                rows.append({"idx": [d, base[d][i] + c], "deltas": [v[c] for v in vecs]})
+        if rows:
+            out.append({"k": "store", "op": "build", "src": "multi", "before": js, "after": js, "locs": locs, "map": [], "need": [],
+                        "sups": sups, "rows": rows})
+    inst = multiVarStore.MultiVarStoreInstancer(store, [_Axis(t) for t in tags])
+    vals = []
+    items = [(d, i) for d in range(len(base)) for i in range(len(base[d]))]
+    for li, loc in enumerate(locs):
+        inst.setLocation({t: float(F(*v)) for t, v in zip(tags, loc)})
+        for d, i in items:
+            vec = inst[(d << 16) + i]
+            if len(vec) != width[d][i]:
+                vals.append([d, base[d][i], li, [12345, 1]])   # wrong arity: let the judge see a wrong value
+                continue
+            for c in range(width[d][i]):
+                vals.append([d, base[d][i] + c, li, rat(vec[c])])
+    out.append({"k": "store", "op": "eval", "src": "multi", "before": js, "after": js, "locs": locs, "map": [], "need": [], "vals": vals})
+    st = copy.deepcopy(store)
+    keep = rng.sample(items, rng.randint(1, len(items)))
+    m = st.subset_varidxes({(d << 16) + i for d, i in keep})
+    js2, base2, width2 = multi_store_json(st, naxes)
+    mp, need = [], []
+    for d, i in keep:
+        key = (d << 16) + i
+        for c in range(width[d][i]):
+            need.append([d, base[d][i] + c])
+            if key in m:
+                d2, i2 = m[key] >> 16, m[key] & 0xFFFF
+                ok = d2 < len(base2) and i2 < len(base2[d2]) and width2[d2][i2] == width[d][i]
+                mp.append([d, base[d][i] + c] + ([d2, base2[d2][i2] + c] if ok else [d2, 60000]))
+    out.append({"k": "store", "op": "subset", "src": "multi", "before": js, "after": js2, "locs": locs, "map": mp, "need": need})
+    return out
 
 
 def load_font(path):
@@ -807,6 +916,7 @@ def build_tasks(chk):
     tasks += [("model", c) for c in chunks(mcases, 40)]
     tasks += [("iup", c) for c in chunks(iup_cases(rng, tier), 600)]
     scases = [("random", None, rng.getrandbits(48)) for _ in range(2500 if tier == "thorough" else 200)]
+    scases += [("multi", None, rng.getrandbits(48)) for _ in range(600 if tier == "thorough" else 80)]
     fonts = variable_corpus()
     scases += [("font", p, rng.getrandbits(48)) for p in fonts]
     tasks += [("store", c) for c in chunks(scases, 12)]
@@ -829,6 +939,8 @@ def run_models_mc(chk):
     """(M) runs; returns the TLC-generated master sets."""
     tier = chk.tier
     notes = {}
+    r = chk.tlc("MC_Rat", label="MC_Rat", timeout=600, workers=4)
+    chk.log("MC_Rat: %d states" % r.distinct)
     r = chk.tlc("MC_Tent", cfg="MC_Tent" if tier == "quick" else "MC_Tent_thorough", label="MC_Tent", timeout=1500)
     cases = sorted({p[0] for p in r.prints.get("CASE", [])})
     want = {"mirror", "1", "2", "3a1", "3a2", "4", "4-peak-at-max", "1neg", "2neg"}
@@ -856,8 +968,9 @@ def run_models_mc(chk):
         raise MachineryError("MC_IUP: cases not all exercised: %s" % sorted(want - set(cases)))
     notes["MC_IUP_cases_fired"] = cases
     chk.log("MC_IUP: %d states" % r.distinct)
-    r = chk.tlc("MC_VarStore", cfg="MC_VarStore" if tier == "quick" else "MC_VarStore_thorough", label="MC_VarStore", timeout=1500)
-    chk.log("MC_VarStore: %d states" % r.distinct)
+    for cfg in (("MC_VarStore",) if tier == "quick" else ("MC_VarStore_thorough", "MC_VarStore_vals")):
+        r = chk.tlc("MC_VarStore", cfg=cfg, label=cfg, timeout=1800)
+        chk.log("%s: %d states" % (cfg, r.distinct))
     if tier == "thorough":
         # TLC's own expression coverage of the semantic modules on the small configurations
         zero = {}
@@ -986,7 +1099,7 @@ def run(chk):
         "tolerance exceeds float error, so TLC compares exactly",
         "cases whose exact evaluation would exceed 31-bit integers are skipped and counted (skip:overflow)",
         "an index outside a store evaluates to 0 (fontTools / HarfBuzz policy; OpenType leaves it undefined)",
-        "multiVarStore is not driven (gap)",
+        "MultiVarStore (vector items, sparse regions) is judged as an item store with one row per vector component",
     ]
 
 
